@@ -13,7 +13,7 @@ def bootMem (vol : PImg) : Mem :=
 /-- what the first half of open returns on a fully created database -/
 def bootedRes (vol : PImg) (es : List Nat) : BootRes :=
   { acts := [memA (.setPm vol.hdr), memA (.loaded (bootMem vol)), memA (.catalog vol.hdr.catRoot es)],
-    ps := { pm := vol.hdr, len := vol.len }, catRoot := vol.hdr.catRoot, entries := es, m0 := bootMem vol }
+    ps := { pm := vol.hdr, len := vol.len, bm := vol.bm }, catRoot := vol.hdr.catRoot, entries := es, m0 := bootMem vol }
 
 /-- on a fully created database the first half of open performs no I/O -/
 theorem bootA_booted (cfg : Cfg) (vol : PImg) (hb : Booted vol) :
@@ -115,7 +115,7 @@ theorem open_safe {cfg : Cfg} {T : List Tx} {fs : FS} (hsync : cfg.syncSlot = tr
   have hopen : openA cfg fs.pd fs.wf =
       [memA (.setPm fs.pd.hdr), memA (.loaded (bootMem fs.pd)), memA (.catalog fs.pd.hdr.catRoot es)] ++
       ([memA (.loaded (replayMem fs.pd (bootedRes fs.pd es) (scan cs)))] ++
-        (nodesA cfg { pm := fs.pd.hdr, len := fs.pd.len } { start := fs.pd.hdr.i2eStart, len := fs.pd.hdr.i2eLen }
+        (nodesA cfg { pm := fs.pd.hdr, len := fs.pd.len, bm := fs.pd.bm } { start := fs.pd.hdr.i2eStart, len := fs.pd.hdr.i2eLen }
           ((allNodes T).drop fs.pd.hdr.i2eLen)).1 ++ [memA (.setRuns (logRuns (scan cs).ckpt cs))]) := by
     unfold openA
     rw [hboot]
@@ -134,19 +134,19 @@ theorem open_safe {cfg : Cfg} {T : List Tx} {fs : FS} (hsync : cfg.syncSlot = tr
   have hnp : 1 ≤ fs.pd.hdr.nextPage := by have := hp.booted.nextPage; omega
   have hdrop : (allNodes T).drop fs.pd.hdr.i2eLen = (allNodes T).drop fs.pd.hdr.i2eLen ++ [] := by simp
   have sa := node_phase (cfg := cfg) (T := T) (cs := cs) (c := c) (k := fs.pd.hdr.i2eLen) hp.booted hsync fs
-    { pm := fs.pd.hdr, len := fs.pd.len } { start := fs.pd.hdr.i2eStart, len := fs.pd.hdr.i2eLen }
-    ((allNodes T).drop fs.pd.hdr.i2eLen) [] hq hcom hlog hst hdrop hB ⟨hin, rfl⟩ hpm rfl rfl rfl hnp hp.lo hl
+    { pm := fs.pd.hdr, len := fs.pd.len, bm := fs.pd.bm } { start := fs.pd.hdr.i2eStart, len := fs.pd.hdr.i2eLen }
+    ((allNodes T).drop fs.pd.hdr.i2eLen) [] hq hcom hlog hst hdrop hB ⟨hin, rfl⟩ hpm rfl rfl rfl hnp hp.lo hl (Nat.le_refl _)
   obtain ⟨nf, _, hBF, hSF, _, lenF, _, idsF, _⟩ :=
     nodesA_safe (cfg := cfg) (N := allNodes T) (c := c) (p0 := fs.pd) hp.booted hsync ((allNodes T).drop fs.pd.hdr.i2eLen)
-      fs.pd.hdr.i2eLen fs { pm := fs.pd.hdr, len := fs.pd.len } { start := fs.pd.hdr.i2eStart, len := fs.pd.hdr.i2eLen } []
-      hdrop hB ⟨hin, rfl⟩ hpm rfl rfl rfl hnp hp.lo hl
+      fs.pd.hdr.i2eLen fs { pm := fs.pd.hdr, len := fs.pd.len, bm := fs.pd.bm } { start := fs.pd.hdr.i2eStart, len := fs.pd.hdr.i2eLen } []
+      hdrop hB ⟨hin, rfl⟩ hpm rfl rfl rfl hnp hp.lo hl (Nat.le_refl _)
   have hMF := memFacts_nodesA (cfg := cfg) (N := allNodes T) (c := c) (p0 := fs.pd) hp.booted hsync ((allNodes T).drop fs.pd.hdr.i2eLen)
-      fs.pd.hdr.i2eLen fs { pm := fs.pd.hdr, len := fs.pd.len } { start := fs.pd.hdr.i2eStart, len := fs.pd.hdr.i2eLen } []
-      hdrop hB ⟨hin, rfl⟩ hpm rfl rfl rfl hnp hp.lo hl
-  obtain ⟨_, hpg⟩ := (pagerActs_nodes cfg ((allNodes T).drop fs.pd.hdr.i2eLen) { pm := fs.pd.hdr, len := fs.pd.len }
+      fs.pd.hdr.i2eLen fs { pm := fs.pd.hdr, len := fs.pd.len, bm := fs.pd.bm } { start := fs.pd.hdr.i2eStart, len := fs.pd.hdr.i2eLen } []
+      hdrop hB ⟨hin, rfl⟩ hpm rfl rfl rfl hnp hp.lo hl (Nat.le_refl _)
+  obtain ⟨_, hpg⟩ := (pagerActs_nodes cfg ((allNodes T).drop fs.pd.hdr.i2eLen) { pm := fs.pd.hdr, len := fs.pd.len, bm := fs.pd.bm }
     { start := fs.pd.hdr.i2eStart, len := fs.pd.hdr.i2eLen }).facts
   have hio : ioSteps (openA cfg fs.pd fs.wf) =
-      ioSteps (nodesA cfg { pm := fs.pd.hdr, len := fs.pd.len } { start := fs.pd.hdr.i2eStart, len := fs.pd.hdr.i2eLen }
+      ioSteps (nodesA cfg { pm := fs.pd.hdr, len := fs.pd.len, bm := fs.pd.bm } { start := fs.pd.hdr.i2eStart, len := fs.pd.hdr.i2eLen }
         ((allNodes T).drop fs.pd.hdr.i2eLen)).1 := by
     rw [hopen]
     simp only [List.cons_append, List.nil_append, ioSteps]
@@ -160,7 +160,7 @@ theorem open_safe {cfg : Cfg} {T : List Tx} {fs : FS} (hsync : cfg.syncSlot = tr
   have hmu : memUpds (openA cfg fs.pd fs.wf) =
       [MemUpd.setPm fs.pd.hdr, .loaded (bootMem fs.pd), .catalog fs.pd.hdr.catRoot es,
         .loaded (replayMem fs.pd (bootedRes fs.pd es) (scan cs))] ++
-      (memUpds (nodesA cfg { pm := fs.pd.hdr, len := fs.pd.len } { start := fs.pd.hdr.i2eStart, len := fs.pd.hdr.i2eLen }
+      (memUpds (nodesA cfg { pm := fs.pd.hdr, len := fs.pd.len, bm := fs.pd.bm } { start := fs.pd.hdr.i2eStart, len := fs.pd.hdr.i2eLen }
         ((allNodes T).drop fs.pd.hdr.i2eLen)).1 ++ [MemUpd.setRuns (logRuns (scan cs).ckpt cs)]) := by
     rw [hopen]
     simp only [List.cons_append, List.nil_append, memUpds]
@@ -169,7 +169,7 @@ theorem open_safe {cfg : Cfg} {T : List Tx} {fs : FS} (hsync : cfg.syncSlot = tr
   obtain ⟨hwF, hdF, hrF⟩ := steps_pager_wal _ hpg fs
   refine ⟨hfail, by rw [hio]; exact sa, by rw [hio]; exact hwF, cs, c, ?_⟩
   rw [hio, hmu]
-  generalize hfsF : fs.steps (ioSteps (nodesA cfg { pm := fs.pd.hdr, len := fs.pd.len }
+  generalize hfsF : fs.steps (ioSteps (nodesA cfg { pm := fs.pd.hdr, len := fs.pd.len, bm := fs.pd.bm }
     { start := fs.pd.hdr.i2eStart, len := fs.pd.hdr.i2eLen } ((allNodes T).drop fs.pd.hdr.i2eLen)).1) = fsF at hBF hSF hwF hdF hrF
   have hlenN : fs.pd.hdr.i2eLen + ((allNodes T).drop fs.pd.hdr.i2eLen).length = (allNodes T).length := by
     simp; omega
@@ -191,12 +191,12 @@ theorem open_safe {cfg : Cfg} {T : List Tx} {fs : FS} (hsync : cfg.syncSlot = tr
   have e_wal : m1.walOpen = true := by rw [← hm1]; rfl
   have e_tc : m1.tailChecked = false := by rw [← hm1]; rfl
   obtain ⟨o1, o2, o3, o4, o5, o6, o7, o8, o9, o10, o11, o12⟩ := open_mem m1 _ (logRuns (scan cs).ckpt cs) hMF.idupd
-  generalize (memUpds (nodesA cfg { pm := fs.pd.hdr, len := fs.pd.len } { start := fs.pd.hdr.i2eStart, len := fs.pd.hdr.i2eLen }
+  generalize (memUpds (nodesA cfg { pm := fs.pd.hdr, len := fs.pd.len, bm := fs.pd.bm } { start := fs.pd.hdr.i2eStart, len := fs.pd.hdr.i2eLen }
       ((allNodes T).drop fs.pd.hdr.i2eLen)).1 ++ [MemUpd.setRuns (logRuns (scan cs).ckpt cs)]).foldl applyUpd m1 = mF
     at o1 o2 o3 o4 o5 o6 o7 o8 o9 o10 o11 o12
-  have hpmL : lastPm (memUpds (nodesA cfg { pm := fs.pd.hdr, len := fs.pd.len } { start := fs.pd.hdr.i2eStart, len := fs.pd.hdr.i2eLen }
+  have hpmL : lastPm (memUpds (nodesA cfg { pm := fs.pd.hdr, len := fs.pd.len, bm := fs.pd.bm } { start := fs.pd.hdr.i2eStart, len := fs.pd.hdr.i2eLen }
       ((allNodes T).drop fs.pd.hdr.i2eLen)).1) fs.pd.hdr = _ := hMF.pm
-  have hstL : lastStart (memUpds (nodesA cfg { pm := fs.pd.hdr, len := fs.pd.len } { start := fs.pd.hdr.i2eStart, len := fs.pd.hdr.i2eLen }
+  have hstL : lastStart (memUpds (nodesA cfg { pm := fs.pd.hdr, len := fs.pd.len, bm := fs.pd.bm } { start := fs.pd.hdr.i2eStart, len := fs.pd.hdr.i2eLen }
       ((allNodes T).drop fs.pd.hdr.i2eLen)).1) fs.pd.hdr.i2eStart = _ := hMF.start
   constructor
   · have hFr : Frame fs.pd fsF.pd := hNGF.frame
